@@ -40,7 +40,8 @@ STAGES = {
     "C09": [S("regress", "^TestC09Regress$"),
             S("matrix", "^TestC09$", shards=(8, 16)),
             S("mixed", "^TestC09Mixed$", quick=3000, thorough=200000, shards=(2, 16))],
-    "C10": [S("programs", "^TestC10$", quick=2500, thorough=150000, shards=(4, 16))],
+    "C10": [S("after-refusal", "^TestC10AfterRefusal$"),
+            S("programs", "^TestC10$", quick=2500, thorough=150000, shards=(4, 16))],
     "C11": [S("requests", "^TestC11$", quick=6000, thorough=200000, shards=(2, 16)),
             S("server", "^TestC11Server$", quick=400, thorough=20000, shards=(1, 4)),
             S("fuzz", "^$", tiers=("thorough",), shards=(1, 1), fuzz={"target": "^FuzzC11$", "time": {"quick": "10s", "thorough": "300s"}}, timeout=("10m", "30m"))],
